@@ -158,3 +158,12 @@ _ext("C18", "Since session 5 whole-run theorems on the concrete models: relabell
      "counterexample outside it = known finding F18-fixsigns-relabel), of hosvd and of tucker_als; scaling the data scales the Tucker-ALS "
      "core and leaves factors, fits and the stop iteration unchanged (nvecs contract stated without reference to scaling; determinacy "
      "of the leading eigenvectors is a hypothesis on the first run) (50 theorems)")
+_ext("C01", "Since session 5: what the converted object REPORTS (tshape, mode split after every convention, matrix shape, nnz = number "
+     "of non-zero cells) is proved for to_tenmat / to_sptenmat / to_sptensor and for the tenmat constructor (after the repair of a "
+     "constructor defect found through the model), double() / to_tensor() of all seven classes equal full(), ktensor.to_tenmat equals "
+     "full().to_tenmat and the Khatri-Rao form, and any well-typed CHAIN of conversions starting from any well-formed holder ends in a "
+     "well-formed holder denoting the same array (48 theorems)")
+_ext("C05", "Since session 5 the table has 87 step-level entries: tenmat (constructor per layout and copy flag, ctranspose with real / complex "
+     "conj, arithmetic), sptenmat, ttensor (dense or sparse core), sumtensor (any list of parts), and the remaining ktensor methods are "
+     "modelled step by step through a compositional analysis (programs calling programs, C05_static_compositional / C05_call_pureFresh) "
+     "instead of the generic 'computed into new arrays' entry (51 theorems)")
